@@ -104,6 +104,10 @@ def c12(tier, seed):
         S("Sorghum", seed=seed + 7, soil_spec={"type": "Sand", "kw": {"z_cn": 2.0, "z_germ": 1.9}}, gw={"water_table": "Y", "dates": ["2001/04/20"], "values": [1.4]}),
         S("MaizeGDD", seed=seed + 8, regime="hot", seasons=3, irr={"method": 3, "schedule": [["2001/06/01", 20], ["2002/06/01", 25]]},
           co2={"constant_conc": False}),
+        # fallow days before the first planting date, with crops whose aeration / minimum-rooting parameters differ from the fallow filler's
+        S("Barley", "Loam", seed=seed + 9, lead=20, seasons=2),
+        S("PaddyRice", "Paddy", seed=seed + 10, lead=9, off_season=True, regime="monsoon", iwc={"value": ["FC", "FC"], "depth_layer": [1, 2]}),
+        S("Wheat", "SandyLoam", seed=seed + 11, lead=5, crop_kw={"Zmin": 0.15, "Aer": 10}),
     ]
     n = 150 if tier == "thorough" else 4
     for i in range(n):
